@@ -46,6 +46,16 @@ class _NpFacade(types.ModuleType):
         return _np.array(a, dtype=object, copy=True)
 
     @staticmethod
+    def isclose(a, b, rtol=1e-05, atol=1e-08, equal_nan=False):
+        # numpy's definition for scalars: |a - b| <= atol + rtol * |b|; infinities are close only to themselves
+        if not (is_sym(a) or is_sym(b)):
+            return _np.isclose(a, b, rtol=rtol, atol=atol, equal_nan=equal_nan)
+        for x in (a, b):
+            if isinstance(x, float) and x in (float("inf"), float("-inf")):
+                return False
+        return abs(a - b) <= atol + rtol * abs(b)
+
+    @staticmethod
     def all(a, *args, **kw):
         # element-wise comparisons of object arrays call SymNum.__eq__ (forks) -> bools
         return bool(_np.all(_np.asarray(a, dtype=object).astype(bool)))
